@@ -145,6 +145,8 @@ structure Bridged where
   out : List PRep
   raw : List UInt8
   ending : String            -- open | closed | timeout
+  /-- closeearly behind a byte pump: only whether the replies that came are a prefix of the direct ones -/
+  prefixOnly : Option Bool := none
 deriving Repr
 
 structure Obs where
@@ -196,7 +198,14 @@ def P_C18 (nf : String → PRep) (mode client : String) (hasPayload pipelinedPay
       | some p => some p.1.cls
       | none => routed.getLast?.map (·.cls)
     let upgradedSession := routed.getLast?.map (·.upgrade) == some true
-    if client == "closeearly" then
+    if let some p := b.prefixOnly then
+      -- termination clause behind a pump: the bridge stops and reports success; what it forwarded
+      -- is a prefix of the direct session (how long a prefix is the business of `closeprobe`)
+      if !p then some "replies-differ-from-direct-on-client-close"
+      else if b.ending != "closed" then some "bridge-does-not-stop-when-client-closes"
+      else if o.exit != "0" then some ("exit-status-" ++ o.exit ++ "-after-client-close")
+      else none
+    else if client == "closeearly" then
       -- termination clause: the bridge stops and reports success; what it forwarded must be a
       -- prefix of the direct session
       if b.ending != "closed" then some "bridge-does-not-stop-when-client-closes"
